@@ -56,12 +56,13 @@ pub fn check_mem(drv: &mut Driver, ev: &mut Ev, f: MemFn, src: &Src, dl: usize, 
 
 pub fn run(ctx: &Ctx, ev: &mut Ev) {
     let mut drv = Driver::new();
+    if ctx.mode == Mode::Miri { return miri(ctx, ev, &mut drv); }
     let th = ctx.thorough();
     let tiny = ctx.mode == Mode::Miri || ctx.mode == Mode::Vg;
     // (a) decode histories: random streams, lengths 0..~100 and large, every alignment, all sinks, all BOM modes
     if ctx.want("dec") {
         let mut r = ctx.rng(61);
-        let n = ctx.budget(500_000, 16_000_000);
+        let n = ctx.budget(1_500_000, 16_000_000);
         for i in 0..n {
             let enc = ALL[r.below(40)];
             let stream = random_stream(&mut r, enc, if !tiny && i % 30 == 0 { 40 } else if tiny { 2 } else { 4 });
@@ -82,14 +83,14 @@ pub fn run(ctx: &Ctx, ev: &mut Ev) {
     // (b) bounded-exhaustive decode histories at the documented minimum capacities (space-check thresholds)
     if ctx.want("decenum") && !tiny {
         let sp = DecSpace { encs: families(), small_alpha: true, maxlen: 3, utf16_extra: 1, boms: vec![Bom::Sniff, Bom::Off], sinks: vec![Sink::U8, Sink::U16, Sink::String], repls: vec![true, false],
-            cap_offsets: vec![vec![0], vec![1], vec![2], vec![3]], last_seps: vec![false, true], stride: if th { 1 } else { 3 }, prefixes: vec![vec![], vec![0xEF], vec![0xEF, 0xBB], vec![0xFE], vec![0xFF]], fills: vec![0xA5], token_streams: (3, 2) };
+            cap_offsets: vec![vec![0], vec![1], vec![2], vec![3]], last_seps: vec![false, true], stride: if th { 1 } else { 8 }, prefixes: vec![vec![], vec![0xEF], vec![0xEF, 0xBB], vec![0xFE], vec![0xFF]], fills: vec![0xA5], token_streams: (3, 2) };
         ev.note(format!("decenum: {}", sp.describe()));
         enum_dec(ctx, ev, &sp, |case, _ng, ev| { let tr = ev.case(); let out = drv.run_dec(case, ev); if tr { println!("TRACE {} | calls: {} | fails: {:?}", case.describe(), fmt_calls(&out.calls), out.fails); } judge_dec(ev, case, &out); ev.nontrivial_enum(); });
     }
     // (c) encode histories
     if ctx.want("enc") {
         let mut r = ctx.rng(62);
-        let n = ctx.budget(400_000, 12_000_000);
+        let n = ctx.budget(1_200_000, 12_000_000);
         for i in 0..n {
             let enc = ALL[r.below(40)];
             let src16 = r.chance(2);
@@ -118,12 +119,12 @@ pub fn run(ctx: &Ctx, ev: &mut Ev) {
     // (d) every mem function: sufficient, exact and too-short destinations, every alignment
     if ctx.want("mem") {
         let mut r = ctx.rng(63);
-        let n = ctx.budget(600_000, 16_000_000);
+        let n = ctx.budget(2_000_000, 16_000_000);
         for i in 0..n {
             let f = ALL_MEM[r.below(ALL_MEM.len())];
             let mut src = gen_src(&mut r, f.src_kind(), if !tiny && i % 100 == 0 { 60 } else if tiny { 2 } else { 4 });
             // precondition-violating *content* for the lossy functions: memory safety only, and only where no debug assertion documents a panic
-            if !cfg!(debug_assertions) && r.chance(8) { match f { Utf8ToLatin1Lossy | EncodeLatin1Lossy => { src.bytes.extend_from_slice("\u{100}\u{4E00}x\u{1F4A9}".as_bytes()); } Utf16ToLatin1Lossy => { src.units.push(0x100); src.units.push(0xD83D); src.units.push(0x4E00); } _ => {} } }
+            if !cfg!(debug_assertions) && r.chance(8) { match f { Utf8ToLatin1Lossy | EncodeLatin1Lossy => { src.bytes.extend_from_slice("\u{100}\u{4E00}x\u{1F4A9}".as_bytes()); if f == Utf8ToLatin1Lossy && r.chance(2) { src.bytes.push(0xC3); } } Utf16ToLatin1Lossy => { src.units.push(0x100); src.units.push(0xD83D); src.units.push(0x4E00); } _ => {} } }
             let nsrc = src.len(f);
             let mut dl = gen_dst_len(&mut r, f, nsrc);
             if f.panics_when_short() && r.chance(10) && f.sufficient(nsrc) > 0 { dl = r.below(f.sufficient(nsrc)); }
@@ -140,6 +141,33 @@ pub fn run(ctx: &Ctx, ev: &mut Ev) {
             check_mem(&mut drv, ev, f, &src, dl, [0u8, 0xFF, 0xA5][r.below(3)], r.below(16), r.below(16), r.below(16));
             if nsrc > 0 { ev.nontrivial_hash(H::new().s(f.name()).b(&src.bytes).u16s(&src.units).u(dl as u64).get()); }
             ev.state(H::new().s(f.name()).u((nsrc % 16) as u64).get(), || format!("mem {} len%16={}", f.name(), nsrc % 16));
+        }
+    }
+    // (d2) systematic sources for the UTF-8 / UTF-16 readers: every pair/triple of tokens (whole characters of every length,
+    // every truncation, ill-formed subsequences) so that every look-ahead meets the exact end of the source
+    if ctx.want("memtokens") {
+        let toks = crate::alpha::utf8_tokens();
+        let idx: Vec<usize> = (0..toks.len()).collect();
+        for seq in strings_over(&idx, if tiny { 2 } else { 3 }).iter() {
+            if seq.is_empty() || !ev.mine() { continue; }
+            if tiny && (seq[0] * 7 + seq.len()) % 5 != 0 { continue; }
+            let mut bytes = vec![]; for t in seq { bytes.extend_from_slice(toks[*t]); }
+            let src = Src { bytes, units: vec![] };
+            for f in [Utf8ToUtf16, Utf8ToUtf16NoRepl, Latin1ToUtf16, Latin1ToUtf8, DecodeLatin1, CopyAsciiToAscii] { let dl = f.sufficient(src.bytes.len()); check_mem(&mut drv, ev, f, &src, dl, 0xA5, seq.len() % 16, (seq[0] * 3) % 16, 0); }
+            if std::str::from_utf8(&src.bytes).is_ok() { check_mem(&mut drv, ev, StrToUtf16, &src, src.bytes.len(), 0xA5, 1, 2, 0); }
+            // the same bytes through the UTF-8 decoder to both sinks, whole and byte per call
+            for sink in [Sink::U16, Sink::U8] { for cuts in [vec![], (1..src.bytes.len()).collect::<Vec<usize>>()] {
+                let caps = [if sink == Sink::U16 { src.bytes.len() + 2 } else { src.bytes.len() * 3 + 4 }];
+                let case = DecCase { enc: UTF_8, bom: Bom::Off, sink, repl: seq.len() % 2 == 0, stream: &src.bytes, cuts: &cuts, last_sep: false, caps: &caps, fill: 0xA5, src_align: seq[0] % 16, dst_align: 0, filler: 0 };
+                ev.case(); let out = drv.run_dec(&case, ev); judge_dec(ev, &case, &out); ev.nontrivial_enum();
+            } }
+            ev.nontrivial_enum();
+        }
+        for seq in strings_over(&crate::alpha::UTF16_UNITS, if tiny { 2 } else { 4 }).iter() {
+            if seq.is_empty() || !ev.mine() { continue; }
+            let src = Src { bytes: vec![], units: seq.clone() };
+            for f in [Utf16ToUtf8, Utf16ToUtf8Partial, Utf16ToStrPartial, EnsureUtf16Validity, CopyBasicLatinToAscii] { for dl in [f.sufficient(seq.len()), seq.len(), seq.len() * 3 - 1, seq.len() + 1] { if f.panics_when_short() && dl < f.sufficient(seq.len()) { continue; } check_mem(&mut drv, ev, f, &src, dl, 0xA5, (seq.len() * 2) % 16, 3, 1); } }
+            ev.nontrivial_enum();
         }
     }
     // (e) read-only functions over guarded sources at every alignment and length (sanitizer-observed), and one-shot APIs
@@ -177,5 +205,45 @@ pub fn run(ctx: &Ctx, ev: &mut Ev) {
             }
             if !s.is_empty() { ev.nontrivial_hash(H::new().b(&s).u(sa as u64).u(3).get()); }
         }
+    }
+}
+
+/// Dedicated small workload for the UB interpreter (about 0.2-0.7 s per call): the same monitors, a few hundred calls per shard.
+fn miri(ctx: &Ctx, ev: &mut Ev, drv: &mut Driver) {
+    let mut r = ctx.rng(66);
+    let th = ctx.thorough();
+    for _ in 0..(if th { 72 } else { 10 }) {
+        let enc = ALL[r.below(40)];
+        let stream = random_stream(&mut r, enc, 1); let stream = &stream[..stream.len().min(48)];
+        let sink = SINKS[r.below(4)]; let cuts = random_cuts(&mut r, stream.len()); let caps = random_caps(&mut r, dec_min_cap(sink), false);
+        let case = DecCase { enc, bom: BOMS[r.below(3)], sink, repl: r.chance(2), stream, cuts: &cuts[..cuts.len().min(3)], last_sep: r.chance(2), caps: &caps, fill: 0xA5, src_align: r.below(16), dst_align: r.below(16), filler: r.below(16) };
+        ev.case(); let out = drv.run_dec(&case, ev); judge_dec(ev, &case, &out); ev.nontrivial_hash(case.hash());
+        ev.sample(|| format!("{} -> {} calls", case.describe(), out.calls.len()));
+    }
+    for _ in 0..(if th { 48 } else { 6 }) {
+        let enc = ALL[r.below(40)]; let src16 = r.chance(2);
+        let t = random_text(&mut r, 1, src16); let t = &t[..t.len().min(40)];
+        if t.windows(2).any(|w| (0xD800..0xDC00).contains(&w[0]) && (0xDC00..0xE000).contains(&w[1])) { continue; }
+        let repl = r.chance(2); let cuts = random_cuts(&mut r, t.len()); let caps = random_caps(&mut r, enc_min_cap(repl), false);
+        let case = EncCase { enc, src16, vec_sink: !src16 && r.chance(3), repl, atoms: t, cuts: &cuts[..cuts.len().min(3)], last_sep: r.chance(2), caps: &caps, fill: 0xA5, src_align: r.below(16), dst_align: r.below(16) };
+        ev.case(); let out = drv.run_enc(&case, ev); judge_enc(ev, &case, &out); ev.nontrivial_hash(case.hash());
+    }
+    for i in 0..(if th { 200 } else { 24 }) {
+        let f = ALL_MEM[(i + ctx.shard * 7) % ALL_MEM.len()];
+        let src = gen_src(&mut r, f.src_kind(), 2);
+        let src = Src { bytes: src.bytes[..src.bytes.len().min(70)].to_vec(), units: src.units[..src.units.len().min(70)].to_vec() };
+        let src = if matches!(f.src_kind(), SrcKind::Str | SrcKind::Latin1Str) { let mut b = src.bytes.clone(); while std::str::from_utf8(&b).is_err() { b.pop(); } Src { bytes: b, units: vec![] } } else { src };
+        let dl = gen_dst_len(&mut r, f, src.len(f));
+        check_mem(drv, ev, f, &src, dl, 0xA5, r.below(16), r.below(16), r.below(16));
+        ev.nontrivial_hash(H::new().s(f.name()).b(&src.bytes).u16s(&src.units).u(dl as u64).get());
+    }
+    let toks = crate::alpha::utf8_tokens();
+    for _ in 0..(if th { 60 } else { 8 }) {
+        let mut bytes = vec![]; for _ in 0..2 + r.below(2) { bytes.extend_from_slice(toks[r.below(toks.len())]); }
+        let src = Src { bytes, units: vec![] };
+        for f in [Utf8ToUtf16, Utf8ToUtf16NoRepl] { let dl = f.sufficient(src.bytes.len()); check_mem(drv, ev, f, &src, dl, 0xA5, r.below(16), r.below(16), 0); }
+        let caps = [src.bytes.len() + 2];
+        let case = DecCase { enc: UTF_8, bom: Bom::Off, sink: Sink::U16, repl: true, stream: &src.bytes, cuts: &[], last_sep: false, caps: &caps, fill: 0xA5, src_align: r.below(16), dst_align: 0, filler: 0 };
+        ev.case(); let out = drv.run_dec(&case, ev); judge_dec(ev, &case, &out); ev.nontrivial_hash(case.hash());
     }
 }
